@@ -233,14 +233,23 @@ pub fn check(tier: &str) -> i32 {
         }
     }
     // Determinism sample: a few histories twice, identical verdicts and states.
+    // Every gate of every command (kind, path, length, content hash, verdict, simulated
+    // clock) and every exit status must be identical between two runs of one history.
+    let npairs = if tier == "thorough" { 48 } else { 6 };
+    let det = simcore::pool::par_map(npairs, jobs, |i| {
+        let sc = gen_scenario(mix(seed, "C04", i as u64));
+        let run = |sc: &Scenario| {
+            hist::TRACE_DIGEST.with(|d| d.set(0));
+            let v = run_plain(sc);
+            (v, hist::TRACE_DIGEST.with(|d| d.get()))
+        };
+        (run(&sc), run(&sc))
+    });
     let mut det_pairs = 0;
-    for i in 0..4u64 {
-        let sc = gen_scenario(mix(seed, "C04", i));
-        let a = run_plain(&sc);
-        let b = run_plain(&sc);
+    for (i, (a, b)) in det.into_iter().enumerate() {
         det_pairs += 1;
         if a != b {
-            rep.harness_error(&format!("determinism self-check failed on history {i}: {a:?} vs {b:?}"));
+            rep.harness_error(&format!("determinism self-check failed on history {i}: {:?}/{:x} vs {:?}/{:x}", a.0, a.1, b.0, b.1));
         }
     }
     let mut seen = BTreeSet::new();
